@@ -747,7 +747,9 @@ impl Rasn {
                                 }
                                 let obj_set_name = match t.object_set.values.first() {
                                     Some(ObjectSetValue::Reference(s)) => self.to_rust_title_case(s),
-                                    _ => todo!()
+                                    // A decode helper can only be named after a referenced object set;
+                                    // an inline or empty set leaves the open type opaque
+                                    _ => return,
                                 };
                                 let field_enum_name = format_ident!("{obj_set_name}_{field_name}");
                                 let input = if m.optionality == Optionality::Required {
